@@ -175,3 +175,158 @@ Proof.
       apply negb_false_iff in Eq. apply fv_eqb_eq in Eq. rewrite Eq. reflexivity.
     + intros tau T1 T2. apply (Hsw (Fin z) eq_refl); try assumption; [discriminate|intros d Hd; discriminate Hd].
 Qed.
+
+(* ------------------------------------------------------------------ the same on edge lists: every move is justified *)
+(* common neighbour / domination in the graph given by a list of valued edges, at time tau *)
+Definition cnbrL (L : list oedge) (u v w : Z) (tau : fv) : Prop :=
+  w <> u /\ w <> v /\
+  exists f1 f2, has_edge L u w f1 /\ has_edge L v w f2 /\ fv_le f1 tau = true /\ fv_le f2 tau = true.
+Definition dominatedL (L : list oedge) (u v c : Z) (tau : fv) : Prop :=
+  cnbrL L u v c tau /\
+  forall w, cnbrL L u v w tau -> w = c \/ exists f, has_edge L c w f /\ fv_le f tau = true.
+
+Definition emit (u v : Z) (T : fv) : list oedge := match T with PInf => [] | _ => [(u, v, T)] end.
+
+(* [justified done todo out]: out is obtained from todo by handling its edges in order; the edge (u,v,t) is moved to a
+   time T >= t (T = +inf: dropped) only if, at every time in [t,T), it is dominated in the current graph
+   "edges already returned ++ edges still to handle" *)
+Inductive justified : list oedge -> list edge -> list oedge -> Prop :=
+| j_nil done : justified done [] []
+| j_step done u v t rest T r :
+    fv_le (Fin t) T = true ->
+    (forall tau : Z, fv_le (Fin t) (Fin tau) = true -> fv_lt (Fin tau) T = true ->
+       exists c, dominatedL (done ++ map lift ((u, v, t) :: rest)) u v c (Fin tau)) ->
+    justified (done ++ emit u v T) rest r ->
+    justified done ((u, v, t) :: rest) (emit u v T ++ r).
+
+Lemma tab_in_range s a w : Coh s -> in_range s a -> tab s a w <> PInf -> in_range s w.
+Proof.
+  intros C Ha. unfold tab, lookup_inf. destruct (fm_find (nb_get s a) w) eqn:E; [|congruence]. intros _.
+  apply fm_find_some_in in E. destruct (coh_keys s C a Ha) as [_ Kr]. rewrite Forall_forall in Kr. apply Kr. exact E.
+Qed.
+
+Lemma dominated_to_list s L u v c tau :
+  Coh s -> repr s L -> (forall a b f, has_edge L a b f -> in_range s a /\ in_range s b) ->
+  in_range s u -> in_range s v -> tau <> PInf ->
+  dominated_by s u v c tau -> dominatedL L u v c tau.
+Proof.
+  intros C R HL Hu Hv Htau [Hc Hall].
+  assert (Hne : forall x, fv_le x tau = true -> x <> PInf) by (intros x H E; subst; apply fv_le_PInf_l in H; contradiction).
+  assert (A : forall w, cnbr s u v w tau -> cnbrL L u v w tau /\ in_range s w).
+  { intros w (N1 & N2 & Hle). apply fv_max_le in Hle. destruct Hle as [L1 L2].
+    assert (Hw : in_range s w) by (apply (tab_in_range s u w C Hu); apply Hne; exact L1).
+    split; [|exact Hw]. split; [exact N1|]. split; [exact N2|]. exists (tab s u w), (tab s v w).
+    split; [apply (R u w Hu Hw); [congruence|]; split; [reflexivity|apply Hne; exact L1]|].
+    split; [apply (R v w Hv Hw); [congruence|]; split; [reflexivity|apply Hne; exact L2]|]. auto. }
+  assert (B : forall w, cnbrL L u v w tau -> cnbr s u v w tau /\ in_range s w).
+  { intros w (N1 & N2 & f1 & f2 & E1 & E2 & L1 & L2). destruct (HL _ _ _ E1) as [_ Hw].
+    split; [|exact Hw]. split; [exact N1|]. split; [exact N2|]. unfold app. apply fv_max_le_iff.
+    apply (R u w Hu Hw) in E1; [|congruence]. apply (R v w Hv Hw) in E2; [|congruence].
+    destruct E1 as [-> _]. destruct E2 as [-> _]. auto. }
+  destruct (A c Hc) as [HcL Hcr]. split; [exact HcL|].
+  intros w Hw. destruct (B w Hw) as [Hw' Hwr]. destruct (Z.eq_dec w c) as [->|Nwc]; [left; reflexivity|right].
+  specialize (Hall w Hw'). exists (tab s c w). split; [|exact Hall].
+  apply (R c w Hcr Hwr); [congruence|]. split; [reflexivity|apply Hne; exact Hall].
+Qed.
+
+Lemma loop_step V s done u v t es s1 o :
+  Coh s -> tbl_ok V s -> In t V -> in_range s u -> in_range s v -> u <> v ->
+  repr s (done ++ map lift ((u, v, t) :: es)) -> NoDup (map okey (done ++ map lift ((u, v, t) :: es))) ->
+  process_edge false s (u, v, t) = Some (s1, o) ->
+  Coh s1 /\ tbl_ok V s1 /\ nvert s1 = nvert s /\
+  repr s1 ((done ++ o) ++ map lift es) /\ NoDup (map okey ((done ++ o) ++ map lift es)).
+Proof.
+  intros C HV HtV Hu Hv Huv R Hnd E.
+  cbn [map] in R, Hnd. change (lift (u, v, t)) with (u, v, Fin t) in R, Hnd.
+  assert (Ht : tab s u v = Fin t).
+  { apply (proj2 (R u v Hu Hv Huv (Fin t))). left. apply in_or_app. right. left. reflexivity. }
+  destruct (process_edge_coh false s u v t s1 o C Hu Hv Huv E) as [C1 Hn1].
+  destruct (process_edge_effect V s u v t s1 o C HV Hu Hv Huv E) as (T & HT & Ho & _ & Htab & _).
+  pose proof E as E2. apply process_edge_spec with (V := V) in E2; [|exact HV|exact HtV]. destruct E2 as [HV1 _].
+  destruct (NoDup_map_remove okey done (u, v, Fin t) (map lift es) Hnd) as [Hnd' Hfresh].
+  change (okey (u, v, Fin t)) with (key u v) in Hfresh.
+  assert (Htab' : forall a b, in_range s a -> in_range s b -> tab s1 a b = if pair_hit a b u v then T else tab s a b).
+  { intros a b Ha Hb. rewrite Htab by assumption. destruct (pair_hit a b u v) eqn:Eh; [|reflexivity].
+    destruct (fv_eqb T (Fin t)) eqn:Eq; [|reflexivity]. apply fv_eqb_eq in Eq. subst T.
+    assert (Hcase : (a = u /\ b = v) \/ (a = v /\ b = u)) by (unfold pair_hit in Eh; lia).
+    destruct Hcase as [[-> ->]|[-> ->]]; [exact Ht|]. rewrite tab_sym by assumption. exact Ht. }
+  split; [exact C1|]. split; [exact HV1|]. split; [exact Hn1|]. split.
+  - apply repr_step with (s := s) (u := u) (v := v) (X := Fin t) (T := T) (others := done ++ map lift es)
+                         (Lold := done ++ (u, v, Fin t) :: map lift es); try assumption.
+    + intros x. rewrite !in_app_iff. cbn [In]. split; [intros [A|[A|A]]|intros [[_ A]|[A|A]]]; auto.
+      left. split; [discriminate|auto].
+    + intros x. rewrite Ho. rewrite !in_app_iff. rewrite in_o. tauto.
+    + intros x. unfold in_range. rewrite Hn1. tauto.
+  - rewrite Ho. destruct T; cbn [app]; try (rewrite <- app_assoc; cbn [app];
+      apply NoDup_map_replace with (x := (u, v, Fin t)); [reflexivity|exact Hnd]).
+    rewrite app_nil_r. exact Hnd'.
+Qed.
+
+Lemma process_loop_justified V : forall es s done out,
+  Coh s -> tbl_ok V s -> incl (map snd es) V ->
+  (forall u v t, In (u, v, t) es -> in_range s u /\ in_range s v /\ u <> v) ->
+  repr s (done ++ map lift es) -> NoDup (map okey (done ++ map lift es)) ->
+  (forall a b f, has_edge (done ++ map lift es) a b f -> in_range s a /\ in_range s b) ->
+  process_loop false s es = Some out -> justified done es out.
+Proof.
+  induction es as [|[[u v] t] es IH]; intros s done out C HV Hin Hrng R Hnd HL H; cbn [process_loop] in H.
+  - inversion H. constructor.
+  - destruct (Hrng u v t (or_introl eq_refl)) as (Hu & Hv & Huv).
+    destruct (process_edge false s (u, v, t)) as [[s1 o]|] eqn:E; [|discriminate].
+    destruct (process_loop false s1 es) as [r|] eqn:Er; [|discriminate]. inversion H; subst out. clear H.
+    assert (HtV : In t V) by (apply Hin; left; reflexivity).
+    destruct (loop_step V s done u v t es s1 o C HV HtV Hu Hv Huv R Hnd E) as (C1 & HV1 & Hn1 & R1 & Hnd1).
+    destruct (process_edge_dominated V s u v t s1 o C HV Hu Hv E) as (T & HT & Ho & Hdom).
+    change (match T with PInf => [] | _ => [(u, v, T)] end) with (emit u v T) in Ho. subst o.
+    apply j_step; [exact HT| |].
+    + intros tau T1 T2. destruct (Hdom (Fin tau) T1 T2) as (c & Hc). exists c.
+      apply dominated_to_list with s; try assumption. discriminate.
+    + apply (IH s1 (done ++ emit u v T) r C1 HV1); try assumption.
+      * intros z Hz. apply Hin. right. exact Hz.
+      * intros u0 v0 t0 H0. unfold in_range. rewrite Hn1. apply (Hrng u0 v0 t0). right. exact H0.
+      * intros a b f He. unfold in_range. rewrite Hn1.
+        assert (Hsub : forall x, In x ((done ++ emit u v T) ++ map lift es) ->
+                       In x (done ++ map lift ((u, v, t) :: es)) \/ (fst x = (u, v))).
+        { intros x Hx. rewrite !in_app_iff in Hx. rewrite in_app_iff. cbn [map In].
+          destruct Hx as [[Hx|Hx]|Hx]; [left; left; exact Hx| |left; right; right; exact Hx].
+          right. unfold emit in Hx. destruct T; cbn [In] in Hx; try tauto; destruct Hx as [<-|[]]; reflexivity. }
+        destruct He as [He|He]; destruct (Hsub _ He) as [Hx|Hx].
+        -- apply (HL a b f). left. exact Hx.
+        -- cbn [fst] in Hx. inversion Hx; subst. auto.
+        -- destruct (HL b a f (or_introl Hx)). auto.
+        -- cbn [fst] in Hx. inversion Hx; subst. auto.
+Qed.
+
+Theorem collapse_justified es out : simple_graph es -> process_edges false es = Some out -> justified [] es out.
+Proof.
+  intros Hs H. destruct (read_edges_coh es Hs) as [C Hn]. pose proof (read_edges_repr es Hs) as R.
+  destruct Hs as [Hnd Hsimple].
+  assert (Hrng : forall u v t, In (u, v, t) es -> in_range (read_edges es) u /\ in_range (read_edges es) v /\ u <> v).
+  { intros u v t Hin. destruct (Hsimple u v t Hin) as (A & B & D). destruct (num_vertices_bound es u v t Hin) as [E1 E2].
+    unfold in_range. rewrite Hn. lia. }
+  unfold process_edges in H.
+  apply (process_loop_justified (map snd es) es (read_edges es) [] out C (read_edges_ok _ es (incl_refl _)) (incl_refl _) Hrng).
+  - exact R.
+  - rewrite app_nil_l. rewrite map_okey_lift. exact Hnd.
+  - rewrite app_nil_l. intros a b f [He|He]; apply in_map_iff in He; destruct He as ([[x y] t] & E & Hin); inversion E; subst;
+      destruct (Hrng _ _ _ Hin) as (A & B & D); auto.
+  - exact H.
+Qed.
+
+Theorem collapse_justified_any dense es out :
+  NoDup (map ekey es) -> (forall u v t, In (u, v, t) es -> 0 <= u /\ 0 <= v /\ u <> v) ->
+  process_edges dense es = Some out -> justified [] es out.
+Proof.
+  intros H1 H2 H. assert (Hs : simple_graph es) by (split; assumption).
+  apply collapse_justified; [exact Hs|]. destruct dense; [rewrite <- tables_agree by exact Hs|]; exact H.
+Qed.
+
+Theorem collapse_justified_entry_point dense es out :
+  NoDup (map ekey es) -> (forall u v t, In (u, v, t) es -> 0 <= u /\ 0 <= v /\ u <> v) ->
+  flag_complex_collapse_edges dense es = Some out -> justified [] (sort_desc es) out.
+Proof.
+  intros H1 H2 H. unfold flag_complex_collapse_edges in H. destruct es as [|e es]; [inversion H; constructor|].
+  set (l := e :: es) in *. assert (Hs : simple_graph l) by (split; assumption).
+  destruct (simple_graph_perm _ _ (sort_desc_perm l) Hs) as [Hs1 Hs2].
+  apply collapse_justified_any with dense; assumption.
+Qed.
